@@ -27,6 +27,23 @@ inline double val(uint64_t idx, int range) {
   return ((double)(int64_t)(h >> 20) - 8796093022208.0) / 4194304.0;
 }
 
+// structured rows of a reim4 vector (8 doubles per row): purely real, purely imaginary, one small integer in every slot, powers of
+// two, zero real parts with SOME zero imaginary parts, all (signed) zero, dense - a value-keyed shortcut must be right on them
+inline void structured_rows(double* u, uint64_t nrows) {
+  for (uint64_t r = 0; r < nrows; ++r) {
+    double* w = u + 8 * r;
+    switch ((r + nrows) % 7) {
+      case 0: for (int k = 0; k < 4; ++k) w[4 + k] = 0.0; break;
+      case 1: for (int k = 0; k < 4; ++k) w[k] = 0.0; break;
+      case 2: for (int k = 0; k < 4; ++k) { w[k] = 2.0; w[4 + k] = 1.0; } break;
+      case 3: for (int k = 0; k < 4; ++k) { w[k] = ldexp(1.0, 3 * k - 4); w[4 + k] = -ldexp(1.0, 7 - 5 * k); } break;
+      case 4: { const double im[4] = {0.0, 1.25, -2.5, 3.0}; for (int k = 0; k < 4; ++k) { w[k] = 0.0; w[4 + k] = im[k]; } break; }
+      case 5: for (int k = 0; k < 8; ++k) w[k] = (k & 1) ? -0.0 : 0.0; break;
+      default: break;
+    }
+  }
+}
+
 // ---- reim4 dot products and convolutions -----------------------------------------------------------
 inline void r4_addmul_q(q128* acc, q128* accabs, const double* u, const double* v) {
   for (int k = 0; k < 4; ++k) {
